@@ -768,6 +768,7 @@ func runC12(c *Ctx) {
 	ruleChannelHandoff(c, p, r, "C12.handoff")
 	rulePoolCtorShared(c, p, "C12.ctor-shared")
 	ruleNoGlobalToggles(c, p, "C12.global-toggles")
+	ruleHandshakeOwner(c, p, "C12.handshake-owner")
 
 	// ---- C12.globals
 	rule = "C12.globals"
